@@ -121,10 +121,11 @@ type c15World struct {
 	subs []*c15Sub
 	live []*c15Watch
 
-	delivered int                        // log index: events below were delivered or covered by a snapshot
-	known     map[string]map[string]bool // svc -> keys the cluster knows (model of the diff base)
-	valOf     map[string]string          // key -> its one value
-	carriers  map[string]map[string]bool // svc|value -> keys that ever carried it
+	delivered int                          // log index: events below were delivered or covered by a snapshot
+	known     map[string]map[string]string // svc -> key -> value the cluster knows (model of the diff base)
+	valOf     map[string]string            // key -> its value (one per key; per life of the key when rekey is set)
+	rekey     bool                         // a key may come back with another value after it was deleted
+	carriers  map[string]map[string]bool   // svc|value -> keys that ever carried it
 
 	ops    []c15Op
 	failed bool   // a violation was recorded: stop the scenario
@@ -142,12 +143,16 @@ type c15World struct {
 
 func newC15World(m *vk.M, idx int, r *rand.Rand, svcs []string) *c15World {
 	n := atomic.AddInt64(&c15WorldSeq, 1)
+	if c15Wedged.Load() {
+		m.Note("case %d not run: a goroutine of this process is stuck inside the package since an earlier scenario (see violations)", idx)
+		return &c15World{m: m, idx: idx, r: r, svcs: svcs, incon: true, wedged: true}
+	}
 	w := &c15World{
 		m: m, idx: idx, r: r,
 		eps:      []string{fmt.Sprintf("c15-%d-a.verif:2379", n), fmt.Sprintf("c15-%d-b.verif:2379", n)},
 		etcd:     newC15Etcd(),
 		svcs:     svcs,
-		known:    map[string]map[string]bool{},
+		known:    map[string]map[string]string{},
 		valOf:    map[string]string{},
 		carriers: map[string]map[string]bool{},
 		reloaded: make(chan struct{}, 16),
@@ -204,14 +209,57 @@ func (w *c15World) subsOf(svc string) []*c15Sub {
 	return out
 }
 
+// c15Wedged: a goroutine of this process is stuck for good inside the package
+// (lock never released): the remaining scenarios of the process cannot run.
+var c15Wedged atomic.Bool
+
+// lockStuck returns the stack of a goroutine that is inside the package (frame
+// containing marker) and parked on a mutex.
+func c15LockStuck(marker string) string {
+	for _, g := range c15Goroutines() {
+		if strings.Contains(g.text, marker) && strings.Contains(g.text, c15Pkg) &&
+			(strings.Contains(g.text, "sync.(*Mutex).Lock") || strings.Contains(g.text, "sync.(*RWMutex).")) {
+			return g.text
+		}
+	}
+	return ""
+}
+
+// newSubscriber runs discov.NewSubscriber under the watchdog. A call that does
+// not return while its goroutine is parked on a mutex of the package, with
+// nothing else running in the package, is a subscriber that can never join.
+func (w *c15World) newSubscriber(svc string, excl bool) (*discov.Subscriber, bool) {
+	var opts []discov.SubOption
+	if excl {
+		opts = append(opts, discov.Exclusive())
+	}
+	var sub *discov.Subscriber
+	var err error
+	if !vk.Within(c15Watchdog, func() { sub, err = discov.NewSubscriber(w.endpoints(), svc, opts...) }) {
+		w.wedged = true
+		c15Wedged.Store(true)
+		if st := c15LockStuck("discov.NewSubscriber"); st != "" {
+			w.violate("C15:attach:hang:cluster-lock", "NewSubscriber(%q) did not return within %v: its goroutine is parked on a lock of the registry that nobody is going to release:\n%s", svc, c15Watchdog, c15Trim(st, 1800))
+		} else {
+			w.inconclusive("NewSubscriber(%q) did not return within %v", svc, c15Watchdog)
+		}
+		return nil, false
+	}
+	if err != nil {
+		w.inconclusive("NewSubscriber failed: %v", err)
+		return nil, false
+	}
+	return sub, true
+}
+
 // ---- operations
 
 func (w *c15World) put(svcIdx, k int, val string) {
 	key := c15Key(w.svcs[svcIdx], k)
-	if v, ok := w.valOf[key]; ok {
+	if v, ok := w.valOf[key]; ok && !w.rekey {
 		val = v // a key carries one value (property quantifier)
 	} else {
-		w.valOf[key] = val
+		w.valOf[key] = val // first life, or (rekey) a new life of the key with possibly another value
 	}
 	w.ops = append(w.ops, c15Op{Op: "put", P: svcIdx, K: k, V: val})
 	ck := w.svcs[svcIdx] + "|" + val
@@ -230,19 +278,22 @@ func (w *c15World) del(svcIdx, k int) {
 func (w *c15World) applyDelivered(ev c15Ev) {
 	svc := c15SvcOf(ev.key)
 	if w.known[svc] == nil {
-		w.known[svc] = map[string]bool{}
+		w.known[svc] = map[string]string{}
 	}
+	old, had := w.known[svc][ev.key]
 	if ev.del {
 		delete(w.known[svc], ev.key)
 	} else {
-		w.known[svc][ev.key] = true
+		w.known[svc][ev.key] = ev.val
 	}
 	for _, s := range w.subsOf(svc) {
 		if !s.excl {
 			continue
 		}
 		if ev.del {
-			s.mDel(ev.key, w.valOf[ev.key])
+			if had {
+				s.mDel(ev.key, old)
+			}
 		} else {
 			s.mAdd([]string{ev.key}, ev.val)
 		}
@@ -387,31 +438,42 @@ func (w *c15World) syncSvc(svc string) { w.syncSvcWith(svc, w.etcd.snapshot(svc)
 func (w *c15World) syncSvcWith(svc string, snap map[string]string) {
 	kn := w.known[svc]
 	groups := map[string][]string{}
+	type kv struct{ k, v string }
+	var removed []kv
 	for k, v := range snap {
-		if !kn[k] {
+		old, ok := kn[k]
+		if !ok {
+			groups[v] = append(groups[v], k)
+		} else if old != v {
+			// the key was deleted and registered again with another value while unseen:
+			// the old pair goes, the new pair comes
+			removed = append(removed, kv{k, old})
 			groups[v] = append(groups[v], k)
 		}
 	}
-	var removed []string
-	for k := range kn {
+	for k, old := range kn {
 		if _, ok := snap[k]; !ok {
-			removed = append(removed, k)
+			removed = append(removed, kv{k, old})
 		}
 	}
 	for _, s := range w.subsOf(svc) {
 		if !s.excl {
 			continue
 		}
+		for _, r := range removed {
+			s.mDel(r.k, r.v)
+		}
 		for v, ks := range groups {
 			s.mAdd(ks, v)
 		}
-		for _, k := range removed {
-			s.mDel(k, w.valOf[k])
-		}
 	}
-	nk := map[string]bool{}
-	for k := range snap {
-		nk[k] = true
+	w.setKnown(svc, snap)
+}
+
+func (w *c15World) setKnown(svc string, snap map[string]string) {
+	nk := map[string]string{}
+	for k, v := range snap {
+		nk[k] = v
 	}
 	w.known[svc] = nk
 }
@@ -466,13 +528,8 @@ func (w *c15World) attach(svcIdx int, excl bool) {
 	first := len(w.subs) == 0
 	keyWatched := len(w.subsOf(svc)) > 0
 	nb := w.etcd.watchCount()
-	var opts []discov.SubOption
-	if excl {
-		opts = append(opts, discov.Exclusive())
-	}
-	sub, err := discov.NewSubscriber(w.endpoints(), svc, opts...)
-	if err != nil {
-		w.inconclusive("NewSubscriber failed: %v", err)
+	sub, ok := w.newSubscriber(svc, excl)
+	if !ok {
 		return
 	}
 	immediate := sub.Values()
@@ -486,6 +543,9 @@ func (w *c15World) attach(svcIdx int, excl bool) {
 		return
 	}
 	w.live = append(w.live, w.etcd.watchesFrom(nb)...)
+	if pend && w.rekey {
+		w.tag = "rekeyed-value-replayed-late"
+	}
 	if pend {
 		// Joined while changes were undelivered. Whether the join itself refreshes the
 		// other subscribers is not in the statement: nothing is asserted until the next
@@ -497,25 +557,19 @@ func (w *c15World) attach(svcIdx int, excl bool) {
 				o.tainted = true
 			}
 		}
-		nk := map[string]bool{}
-		for k := range w.etcd.snapshot(svc) {
-			nk[k] = true
-		}
-		w.known[svc] = nk
+		w.setKnown(svc, w.etcd.snapshot(svc))
 		return
 	}
 	// up to date: the newcomer is told every present key, in unspecified order
 	snap := w.etcd.snapshot(svc)
 	groups := map[string][]string{}
-	nk := map[string]bool{}
 	for k, v := range snap {
 		groups[v] = append(groups[v], k)
-		nk[k] = true
 	}
 	for v, ks := range groups {
 		s.mAdd(ks, v)
 	}
-	w.known[svc] = nk
+	w.setKnown(svc, snap)
 	w.subs = append(w.subs, s)
 	// "immediately" is asserted where the statement promises it: the key is already being
 	// watched for another subscriber. The first subscriber of a key is checked at the
@@ -546,6 +600,9 @@ func (w *c15World) rewatch(i int, how string) {
 	}
 	i %= len(w.live)
 	w.ops = append(w.ops, c15Op{Op: how, N: i})
+	if w.rekey {
+		w.tag = "rekeyed-value-replayed-late"
+	}
 	lw := w.live[i]
 	nb := w.etcd.watchCount()
 	// as the etcd client: an error response is the last one, then the channel is closed
@@ -602,11 +659,23 @@ func (w *c15World) rewatch(i int, how string) {
 				}
 				s.own[v] = c
 			}
+			at := map[string]string{} // key -> value as of the replay position
+			for _, ev := range w.etcd.events(0, nw.cursor) {
+				if ev.del {
+					delete(at, ev.key)
+				} else {
+					at[ev.key] = ev.val
+				}
+			}
 			for _, ev := range replay {
 				if ev.del {
-					s.mDel(ev.key, w.valOf[ev.key])
+					if v, ok := at[ev.key]; ok {
+						s.mDel(ev.key, v)
+					}
+					delete(at, ev.key)
 				} else {
 					s.mAdd([]string{ev.key}, ev.val)
+					at[ev.key] = ev.val
 				}
 			}
 			for v, o := range before {
@@ -663,7 +732,16 @@ func (w *c15World) state(name string) {
 	nb := w.etcd.watchCount()
 	expected := internal.C15ListenedKeys(w.eps)
 	before := atomic.LoadInt64(&w.fired)
-	w.trig.Feed(st)
+	if !vk.Within(c15Watchdog, func() { w.trig.Feed(st) }) {
+		w.wedged = true
+		c15Wedged.Store(true)
+		if stk := c15LockStuck("(*stateWatcher)"); stk != "" {
+			w.violate("C15:reconnect:hang:state-watcher-lock", "stateWatcher.updateState(%s) did not return within %v: it is parked on the watcher's own lock, which nobody holds any more; the reload can never start (missed changes pending: %d):\n%s", name, c15Watchdog, w.pending(), c15Trim(stk, 1500))
+		} else {
+			w.inconclusive("stateWatcher.updateState(%s) did not return within %v", name, c15Watchdog)
+		}
+		return
+	}
 	got := int(atomic.LoadInt64(&w.fired) - before)
 	if expect && got == 0 {
 		w.violate("C15:reconnect:no-reload", "connection reported %s after a loss but the state watcher did not start a reload (pending missed events: %d)", name, w.pending())
